@@ -18,6 +18,7 @@ ERR_KINDS = [
     ("case-insensitive", "ECaseInsens"),
     ("No more layer numbers", "ENoLayerNum"),
 ]
+DBU_VALUES = [100, 200, 400, 800, 1000, 2000, 4000, 8000, 10000, 20000]
 UNITS = {"Micro": 0, "Nano": 1, "Angstrom": 2, "Pico": 3}
 
 # ------------------------------------------------------------------ decimals: [neg, "magnitude", scale]
@@ -135,6 +136,8 @@ def gen_lib(rng, flavour):
             lib["ncs"] = "off"
         elif r < 0.15:
             lib["ncs"] = "on"
+    if rng.random() < 0.3:       # UNITS DATABASE MICRONS: every legal value; the raw units per micron do not depend on it
+        lib["dbu"] = rng.choice(DBU_VALUES)
     if rng.random() < 0.25:      # caller-provided layer table, with gaps, clashes and unnamed layers
         ls = []
         for _ in range(rng.randrange(0, 6)):
@@ -173,6 +176,8 @@ def directed_cases():
     out.append(("dir_bad", size_only(D(0, 12345, 5), D(0, 1, 0))))         # 0.12345: not on the grid
     out.append(("dir_bad", size_only(D(0, 1, 0), D(0, 12345, 5))))
     out.append(("dir_bad", size_only(D(0, 1, 5), D(0, 1, 5))))
+    for dbu in DBU_VALUES:                                                  # SIZE 1.5 BY 2.25 under every legal DATABASE MICRONS
+        out.append(("dir_dbu", dict(size_only(D(0, 15, 1), D(0, 225, 2)), dbu=dbu)))
     rect = lambda a, b, c, d: ["r", [a, b], [c, d]]
     lg = {"layer": "met1", "width": D(0, 10, 2), "spacing": None, "epg": None, "nvias": 0,
           "geoms": [rect(D(0, 1, 0), D(0, 2, 0), D(0, 3, 0), D(0, 4, 0)), ["w", [[D(0, 5, 1), D(0, 25, 2)], [D(0, 7, 0), D(0, 8, 0)]]],
